@@ -181,13 +181,16 @@ def s5(ctx, rep):
     ok = len(dflt) == 1 and U(dflt[0].body[0]) == "mode = 'min'"
     rep.put(ok, "S5", "agreement", "print_best_metric_found: a missing mode means 'min'", f, None, "")
     e = P.method("ExperimentResult", "best_config")
-    ifs = [s for s in walk_shallow(e.node) if isinstance(s, ast.If) and parity.mode_test(s.test) is not None]
-    ok = len(ifs) == 1
+    # the choice of the best row on the mode: if/else assigning the index, or a conditional expression assigned to it
+    from ..engine import value_choices
+    chs = [c_ for c_ in value_choices(e) if parity.mode_test(c_[1]) is not None]
+    ok = len(chs) == 1
     if ok:
-        m = parity.mode_test(ifs[0].test)
-        amin, amax = (ifs[0].body, ifs[0].orelse) if m == "min" else (ifs[0].orelse, ifs[0].body)
-        ok = parity.arms_are_dual(amin, amax, oriented=True) and "argmin" in U(amin[0])
-        bi = U(amin[0].targets[0]) if isinstance(amin[0], ast.Assign) else "?"
+        m = parity.mode_test(chs[0][1])
+        amin, amax = (chs[0][2], chs[0][3]) if m == "min" else (chs[0][3], chs[0][2])
+        ok = parity.arms_are_dual(amin, amax, oriented=True) and "argmin" in U(amin)
+        bi = chs[0][4] if chs[0][4] not in ("expr", "return") else next(
+            (U(x.targets[0]) for x in walk_shallow(e.node) if isinstance(x, ast.Assign) and x.value is chs[0][0]), "?")
         ok = ok and any(isinstance(x, ast.Assign) and f"self.results.loc[{bi}]" in U(x.value) for x in walk_shallow(e.node))
     rep.put(ok, "S5", "parity", "ExperimentResult.best_config: argmin for min / argmax for max over the results table, row looked up by that index", e, None, "")
     mm = P.func("syne_tune.util.metric_name_mode")
